@@ -284,13 +284,21 @@ def table_entries(PS):
 # shard: a slice of S_n - methods, repeat, table; returns the reference vectors as payload
 # --------------------------------------------------------------------------------------------
 
+HEAVY = ("holeyness", "threepats", "fourpats", "Holeyness of a permutation")
+# brute-force enumerations in the library (all subsets / all 3- and 4-subsets): no shape-dependent
+# shortcut, and 2/3 of the cost at length 9 - left out at the top length of the thorough tier only
+
+
 def shard_perms(shard):
-    n, lo, hi, do_methods, do_table, do_repeat, want_vec = shard
+    n, lo, hi, do_methods, do_table, do_repeat, want_vec, skip_heavy = shard
     Perm, PS = _lib()
     part = Partial()
     entries = table_entries(PS) if do_table else []
     payload = []
     names = sorted(METHODS)
+    if skip_heavy:
+        names = [nm for nm in names if nm not in HEAVY]
+        entries = [e for e in entries if e[1] not in HEAVY]
     sampled = False
     for p in R.perms(n)[lo:hi]:
         if do_methods:
@@ -302,20 +310,24 @@ def shard_perms(shard):
                     part.add(1, 1 if nontrivial_value(exp) else 0)
                     if do_repeat:
                         part.bump("repeat-pairs")
-            if not sampled and n >= 4:
+            if not sampled and n >= 5 and lo == 0:
                 sampled = True
                 part.sample({"perm": p, "rtlmax_ltrmin_decomposition": D.layers(p),
                              "longestruns_ascending": D.longest_runs(p, True),
                              "inversions": len(D.inversions(p)), "holeyness": D.holeyness(p)}, cap=1)
-        if do_table or want_vec:
+        if want_vec:
             ref, dev = D.table_values(p)
+            payload.append((p, ref, dev))
+        for i, name, func in entries:
             if want_vec:
-                payload.append((p, ref, dev))
-            for i, name, func in entries:
                 j = D.NAMES.index(name)
-                check_table_entry(part, Perm, PS, p, name, func, ref[j], dev[j])
-                part.add(1, 1 if ref[j] != 0 else 0)
-                part.outcomes.add((name, ref[j]))
+                r, d = ref[j], dev[j]
+            else:
+                r = D.FUNC[name](p)
+                d = D.DEVIATION[name](p) if name in D.DEVIATION else r
+            check_table_entry(part, Perm, PS, p, name, func, r, d)
+            part.add(1, 1 if r != 0 else 0)
+            part.outcomes.add((name, r))
     return part, payload
 
 
@@ -395,45 +407,46 @@ def check_distribution(part, sub, case, got, data, j, name):
     return exp
 
 
-def run_dist_case(part, basis, nmax, stat_names=None, times=1):
+def run_dist_case(part, basis, nmax, stat_names=None):
     Perm, PS = _lib()
     cls = mk_class(basis) if basis is not None else None
-    for _ in range(times):
-        data = []
+    data = []
+    for n in range(nmax + 1):
+        if cls is None:
+            data.append(R.perms(n))
+        else:
+            data.append([tuple(q) for q in cls.of_length(n)])
+    for i, name, _func in table_entries(PS):
+        if stat_names is not None and name not in stat_names:
+            continue
+        j = D.NAMES.index(name)
+        st = PS.get_by_index(i)
         for n in range(nmax + 1):
-            if cls is None:
-                data.append(R.perms(n))
-            else:
-                data.append([tuple(q) for q in cls.of_length(n)])
-        for i, name, _func in table_entries(PS):
-            if stat_names is not None and name not in stat_names:
-                continue
-            j = D.NAMES.index(name)
-            st = PS.get_by_index(i)
-            for n in range(nmax + 1):
-                case = {"tool": "distribution_for_length", "basis": basis, "n": n, "stat": name}
-                try:
-                    got = st.distribution_for_length(n, cls) if cls is not None else \
-                        st.distribution_for_length(n)
-                except Exception as exc:  # noqa
-                    part.violation("dist", case, {"exception": repr(exc)})
-                    continue
-                exp = check_distribution(part, "dist", case, got, data[n], j, name)
-                part.add(1, 1 if len(exp) >= 2 else 0)
-            case = {"tool": "distribution_up_to", "basis": basis, "n": nmax, "stat": name}
+            case = {"tool": "distribution_for_length", "basis": basis, "n": n, "stat": name}
             try:
-                rows = st.distribution_up_to(nmax, cls) if cls is not None else \
-                    st.distribution_up_to(nmax)
-                if len(rows) != nmax + 1:
-                    part.violation("dist", case, {"rows": len(rows), "expected_rows": nmax + 1})
-                else:
-                    for n in range(nmax + 1):
-                        c2 = dict(case)
-                        c2["row"] = n
-                        check_distribution(part, "dist", c2, rows[n], data[n], j, name)
+                got = st.distribution_for_length(n, cls) if cls is not None else \
+                    st.distribution_for_length(n)
             except Exception as exc:  # noqa
                 part.violation("dist", case, {"exception": repr(exc)})
-            part.add(1, 1 if nmax >= 3 else 0)
+                continue
+            exp = check_distribution(part, "dist", case, got, data[n], j, name)
+            part.add(1, 1 if len(exp) >= 2 else 0)
+        case = {"tool": "distribution_up_to", "basis": basis, "n": nmax, "stat": name}
+        try:
+            rows = st.distribution_up_to(nmax, cls) if cls is not None else \
+                st.distribution_up_to(nmax)
+            rows = list(rows)
+        except Exception as exc:  # noqa
+            part.violation("dist", case, {"exception": repr(exc)})
+            rows = None
+        if rows is not None and len(rows) != nmax + 1:
+            part.violation("dist", case, {"rows": len(rows), "expected_rows": nmax + 1})
+        elif rows is not None:
+            for n in range(nmax + 1):
+                c2 = dict(case)
+                c2["row"] = n
+                check_distribution(part, "dist", c2, rows[n], data[n], j, name)
+        part.add(1, 1 if nmax >= 3 else 0)
 
 
 def shard_dist(shard):
@@ -572,7 +585,7 @@ def bij_family_upto(n):
     return fam
 
 
-def run_bij_case(part, label, pairs, tools, times=1):
+def run_bij_case(part, label, pairs, tools):
     """pairs: list of (key tuple, value tuple).  tools: subset of
     {'preserved_in', 'check_all_preservations', 'check_all_transformed', 'symmetry_duplication'}."""
     Perm, PS = _lib()
@@ -580,66 +593,63 @@ def run_bij_case(part, label, pairs, tools, times=1):
     ents = table_entries(PS)
     known = {name for _, name, _ in ents}
     nt = 0
-    for _ in range(times):
-        bij = {Perm(k): Perm(v) for k, v in pairs}
-        items = list(dict(pairs).items())     # later duplicates of a key win, as in the dict above
-        pres = [{name for _, name, _ in ents
-                 if all(vec(k, w)[D.NAMES.index(name)] == vec(v, w)[D.NAMES.index(name)]
-                        for k, v in items)} for w in (0, 1)]
-        base = {"label": label, "pairs": [[list(k), list(v)] for k, v in pairs]}
-        if "preserved_in" in tools:
-            case = dict(base, tool="preserved_in")
-            try:
-                got = {name for i, name, _ in ents if PS.get_by_index(i).preserved_in(bij)}
-                attribute(part, "bijections", case, got, pres[0], pres[1], lambda e: (e,))
-            except Exception as exc:  # noqa
-                part.violation("bijections", case, {"exception": repr(exc)})
-        if "check_all_preservations" in tools:
-            case = dict(base, tool="check_all_preservations")
-            try:
-                out = list(PS.check_all_preservations(bij))
-                if no_dups(part, "bijections", case, out):
-                    attribute(part, "bijections", case, {x for x in out if x in known},
-                              pres[0], pres[1], lambda e: (e,))
-            except Exception as exc:  # noqa
-                part.violation("bijections", case, {"exception": repr(exc)})
-        if "check_all_transformed" in tools:
-            case = dict(base, tool="check_all_transformed")
-            exp = []
-            for w in (0, 1):
-                cols_k = [[vec(k, w)[D.NAMES.index(name)] for k, _ in items] for _, name, _ in ents]
-                cols_v = [[vec(v, w)[D.NAMES.index(name)] for _, v in items] for _, name, _ in ents]
-                exp.append({(ents[a][1], ents[b][1]) for a in range(len(ents))
-                            for b in range(len(ents)) if cols_k[a] == cols_v[b]})
-            try:
-                out = PS.check_all_transformed(bij)
-                flat = [(a, b) for a, lst in out.items() for b in lst]
-                empty_keys = [a for a, lst in out.items() if not lst]
-                if empty_keys:
-                    part.violation("bijections", case, {"keys_with_empty_lists": empty_keys[:4]})
-                elif no_dups(part, "bijections", case, flat):
-                    attribute(part, "bijections", case,
-                              {e for e in flat if e[0] in known and e[1] in known},
-                              exp[0], exp[1], lambda e: e)
-            except Exception as exc:  # noqa
-                part.violation("bijections", case, {"exception": repr(exc)})
-            if 0 < len(exp[0]) < len(ents) ** 2:
-                nt = 1
-        if "symmetry_duplication" in tools:
-            case = dict(base, tool="symmetry_duplication")
-            try:
-                out = [sorted((tuple(k), tuple(v)) for k, v in d.items())
-                       for d in PS.symmetry_duplication(bij)]
-                exp_sd = [sorted((R.apply_sym(s, k), R.apply_sym(s, v)) for k, v in items)
-                          for s in R.SYMS]
-                if sorted(out) != sorted(exp_sd):
-                    part.violation("bijections", case, {"expected": sorted(exp_sd)[:3],
-                                                        "got": sorted(out)[:3],
-                                                        "n_got": len(out)})
-            except Exception as exc:  # noqa
-                part.violation("bijections", case, {"exception": repr(exc)})
-        if 0 < len(pres[0]) < len(ents):
+    bij = {Perm(k): Perm(v) for k, v in pairs}
+    items = list(dict(pairs).items())     # later duplicates of a key win, as in the dict above
+    pres = [{name for _, name, _ in ents
+             if all(vec(k, w)[D.NAMES.index(name)] == vec(v, w)[D.NAMES.index(name)]
+                    for k, v in items)} for w in (0, 1)]
+    base = {"label": label, "pairs": [[list(k), list(v)] for k, v in pairs]}
+    def call(case, thunk):
+        """the library call alone is guarded: an exception there is an observation"""
+        try:
+            return True, thunk()
+        except Exception as exc:  # noqa
+            part.violation("bijections", case, {"exception": repr(exc)})
+            return False, None
+
+    if "preserved_in" in tools:
+        case = dict(base, tool="preserved_in")
+        ok, got = call(case, lambda: {name for i, name, _ in ents
+                                      if PS.get_by_index(i).preserved_in(bij)})
+        if ok:
+            attribute(part, "bijections", case, got, pres[0], pres[1], lambda e: (e,))
+    if "check_all_preservations" in tools:
+        case = dict(base, tool="check_all_preservations")
+        ok, out = call(case, lambda: list(PS.check_all_preservations(bij)))
+        if ok and no_dups(part, "bijections", case, out):
+            attribute(part, "bijections", case, {x for x in out if x in known},
+                      pres[0], pres[1], lambda e: (e,))
+    if "check_all_transformed" in tools:
+        case = dict(base, tool="check_all_transformed")
+        exp = []
+        for w in (0, 1):
+            cols_k = [[vec(k, w)[D.NAMES.index(name)] for k, _ in items] for _, name, _ in ents]
+            cols_v = [[vec(v, w)[D.NAMES.index(name)] for _, v in items] for _, name, _ in ents]
+            exp.append({(ents[a][1], ents[b][1]) for a in range(len(ents))
+                        for b in range(len(ents)) if cols_k[a] == cols_v[b]})
+        ok, out = call(case, lambda: {a: list(lst) for a, lst in
+                                      PS.check_all_transformed(bij).items()})
+        if ok:
+            flat = [(a, b) for a, lst in out.items() for b in lst]
+            if no_dups(part, "bijections", case, flat):
+                # a key with an empty list reports nothing: not demanded either way
+                attribute(part, "bijections", case,
+                          {e for e in flat if e[0] in known and e[1] in known},
+                          exp[0], exp[1], lambda e: e)
+        if 0 < len(exp[0]) < len(ents) ** 2:
             nt = 1
+    if "symmetry_duplication" in tools:
+        case = dict(base, tool="symmetry_duplication")
+        ok, out = call(case, lambda: [sorted((tuple(k), tuple(v)) for k, v in d.items())
+                                      for d in PS.symmetry_duplication(bij)])
+        if ok:
+            exp_sd = [sorted((R.apply_sym(s, k), R.apply_sym(s, v)) for k, v in items)
+                      for s in R.SYMS]
+            if sorted(out) != sorted(exp_sd):
+                part.violation("bijections", case, {"expected": sorted(exp_sd)[:3],
+                                                    "got": sorted(out)[:3], "n_got": len(out)})
+    if 0 < len(pres[0]) < len(ents):
+        nt = 1
     return nt
 
 
@@ -849,7 +859,7 @@ def run(ctx, only=None):
         for n in range(0, top + 1):
             for lo, hi in chunks(n, per[n]):
                 shards.append((n, lo, hi, want("methods"), want("table"),
-                               want("methods") and n <= 5, n <= ntools))
+                               want("methods") and n <= 5, n <= ntools, n >= 9))
         # big lengths first keeps the pool busy; the reported order of violations is by shard
         # order (simplest first) regardless
         payloads = ctx.pmap(shard_perms, shards)
@@ -858,6 +868,7 @@ def run(ctx, only=None):
                 VEC[p] = (ref, dev)
         ctx.bounds["methods"] = {
             "perm_lengths": "0..%d (all %d permutations)" % (top, sum(math.factorial(k) for k in range(top + 1))),
+            "left_out_at_length_9": list(HEAVY) if top >= 9 else [],
             "methods": len(METHODS), "step_sizes": "None and 1..n for descents/ascents (8 methods)",
             "second_call_on_same_object": "lengths 0..5"}
         ctx.bounds["table"] = {"perm_lengths": "0..%d" % top, "entries": len(table_entries(PS))}
@@ -1036,18 +1047,20 @@ def replay(ctx, rec):
             got = repr(exc)
         if got != exp:
             ctx.violation("isprime", case, {"expected": exp, "got": got})
-    elif sub == "dist":
-        part = Partial()
-        run_dist_case(part, case["basis"], case["n"], stat_names={case["stat"]})
-        _first(ctx, part, case, rec.get("signature"))
-    elif sub == "classes":
-        part = Partial()
-        run_pair_case(part, case["tool"], case["basis1"], case["basis2"], case["n"], case["dim"])
-        _first(ctx, part, case, rec.get("signature"))
-    elif sub == "bijections":
-        part = Partial()
-        run_bij_case(part, case["label"], case["pairs"], (case["tool"],))
-        _first(ctx, part, case, rec.get("signature"))
+    elif sub in ("dist", "classes", "bijections"):
+        # T rounds in this process: a failure that only shows from the second call on (state kept
+        # between calls) still reproduces; reported once
+        for _ in range(T):
+            part = Partial()
+            if sub == "dist":
+                run_dist_case(part, case["basis"], case["n"], stat_names={case["stat"]})
+            elif sub == "classes":
+                run_pair_case(part, case["tool"], case["basis1"], case["basis2"], case["n"],
+                              case["dim"])
+            else:
+                run_bij_case(part, case["label"], case["pairs"], (case["tool"],))
+            if _first(ctx, part, case, rec.get("signature")):
+                break
     elif sub == "custom":
         part = Partial()
         cname = case.get("custom") or case.get("name")
@@ -1087,4 +1100,5 @@ def _first(ctx, part, case, sig):
     for v in part.viols:
         if v["case"] == case and v["sig"] == sig:
             ctx.violation(v["sub"], case, v["detail"], sig=v["sig"])
-            return
+            return True
+    return False
